@@ -19,6 +19,9 @@ THEOREMS = [
     "Mtv.Envelope.keyed_session_message_is_under_key",
     "Mtv.Envelope.clientRead_before_key",
     "Mtv.Envelope.clientRead_no_panic",
+    "Mtv.Envelope.openClient_result_contract",
+    "Mtv.Envelope.route_result_contract",
+    "Mtv.Envelope.openClient_refuses_inconsistent_length",
 ]
 RULE = ("fault enumeration on packets sealed by the harness's own MTProto 1.0 server (body lengths 0, 4, 20, 100; thorough: "
         "0, 1, 4, 15, 16, 20, 100, 1000): every single-bit flip of the 24-byte header and sampled (thorough: all) ciphertext "
@@ -40,6 +43,14 @@ RULE = ("fault enumeration on packets sealed by the harness's own MTProto 1.0 se
         "walks; judged per step: a frame with zero key id yields no message while the client is in encrypted mode, a yielded "
         "message is what the specification's receiver recovers under the key in force, valid packets after refused ones are "
         "still delivered; "
+        "c04.big (session 9, packets described by (length, seed), expanded by the same LCG on both sides): garbage under the "
+        "right key id with body 2^e-16, 2^e, 2^e+16 for e = 10..24 (quick: the +-16 neighbours at e = 12, 16, 20, 23, 24; thorough: all, "
+        "+-32 and a random aligned size), the same sizes not block aligned, packets of exactly 2^e bytes, body 2^24+2^20 (thorough: up "
+        "to 3*2^24); VALID sealings of messages filling 2^10 .. 2^20+2^16 and 2^24+2^20 decrypted bytes (thorough: also 2^22, 2^23, "
+        "2^24-16, 2^24, 2^24+16, 2^24+32, 2^25), which must open to what was sealed; key holder's inconsistent lengths on 2^16 and "
+        "2^20 bytes; every one through DeserializeEncrypted, those from 2^23 on and a share of the others also through ReadMsg over "
+        "loopback TCP; c04.cut: frames cut short by the end of the connection (ReadMsg's connection returns). Result contract on "
+        "every operation: err == nil with a nil message (pointer, interface, typed nil) is the violation 'no error and no message'; "
         "unencrypted packets: every truncation, declared length len-33..len+33 and extremes, wrong parity. Judge: never a panic; "
         "an accepted message must be what the independent specification receiver recovers from those bytes and have server "
         "parity; alterations must be errors; valid (re-)sealings must open to what was sealed. distinct = distinct operation "
